@@ -10,3 +10,29 @@ def signature(name):
         SIGNATURES[name] = f
         return f
     return deco
+
+
+def _cli_stderr(info):
+    d = info.get("details") or {}
+    return ((d.get("cli") or {}).get("stderr")) or ""
+
+
+@signature("interp_slot_parse_error")
+def k1(info):
+    """K1: the diagnostic is the slot-parse failure with its debug payload, and the input has an interpolated literal"""
+    return "couldn't parse interpolation slot: " in _cli_stderr(info) and '$"' in info.get("input", "") or \
+        ("couldn't parse interpolation slot: " in _cli_stderr(info) and "$" in info.get("input", ""))
+
+
+@signature("slot_position_after_escape")
+def k2(info):
+    """K2: the failing position belongs to a diagnostic raised inside a slot (`l:c: l2:c2: …`) whose literal has an escape
+    sequence or a line break before that slot"""
+    d = info.get("details") or {}
+    return bool(d.get("inside_slot_after_escape"))
+
+
+@signature("object_pattern_key_underscore")
+def k3(info):
+    """K3: an object pattern with a pair whose (literal) key is "_" """
+    return bool(re.search(r'\{[^{}]*"_"\s*:', info.get("input", "")))
